@@ -27,7 +27,8 @@ META = {
     'engine': 'coq+extraction+harness',
 }
 
-MODEL_TREE = {'ONE': 'oooF', 'ONER': 'oooR', 'FLU': 'oFR', 'FLUN': 'oF(F)', 'FLUT': 'o(gF)F', 'FLUC': 'o(yR)F', 'FLUB': 'oBF'}
+MODEL_TREE = {'ONE': 'oooF', 'ONER': 'oooR', 'FLU': 'oFR', 'FLUN': 'oF(F)', 'FLUT': 'o(gF)F', 'FLUC': 'o(yR)F', 'FLUB': 'oBF',
+              'ONEQ': 'oooR', 'ONEA1': 'oooF', 'ONEA2': 'oooF'}
 KIND_NAMES = {'oF': 'plain', 'oR': 'rotating', 'oFR': 'both', 'o(F)': 'nested', 'oF(oR(F))': 'nested-deep',
               'ONE': 'one-line configure(path, sync)', 'ONER': 'one-line configure(path, maxFileSize, sync)',
               'FLU': 'fluent format().sendToFile().sendToFile(limit)', 'FLUN': 'fluent with pipeline()',
@@ -36,7 +37,10 @@ KIND_NAMES = {'oF': 'plain', 'oR': 'rotating', 'oFR': 'both', 'o(F)': 'nested', 
               'FLUC': 'fluent: pipeline().filterCategory(debug only).sendToFile(trace, limit).end().sendToFile(app)',
               'FLUB': 'fluent: sendToFile(/dev/full).sendToFile(app)', 'onF': 'top-level filter rejecting the fatal message',
               'olF': 'LevelFilter(warning) before the file sink', 'o(eF)(xR)': 'even/odd ids split over two files',
-              'oB(F)R': 'full device before a nested and a rotating sink', 'oNFR': 'null handler entry before the file sinks',
+              'oB(F)R': 'full device before a nested and a rotating sink', 'oNFR': 'null handler entry before the file sinks', 'oq': 'rotating sink, 1000-byte limit, explicit flush() before the rotation',
+              'oQ': 'rotating sink whose rotation rename fails (name occupied by a directory)',
+              'ONEQ': 'one-line configure(path, 1000) whose rotation rename fails',
+              'ONEA1': 'one-line configure(async=true) then resetOwnThread()', 'ONEA2': 'one-line configure(async=true), event loop ran and quit',
               'N(FN)NF': 'null handler entries at both levels', 'SoF': 'slow handler keeps another thread inside the logger',
               'oS(gF)R': 'slow handler, trace file and rotating sink', 'o(gF)F': 'debug-only trace file next to the main file'}
 CHUNK = 16384
@@ -49,7 +53,35 @@ def text_of(i, size):
     return s
 
 
+def events(msgs):
+    """messages and explicit flushes ('f', 0) in order, mixed types left symbolic"""
+    out = []
+    if msgs in ('-', ''):
+        return out
+    for it in msgs.split(','):
+        t, body = it[0], it[1:]
+        if t == 'f':
+            out.append(('f', 0)); continue
+        if '*' in body:
+            sz, cnt = body.split('*')
+            out += [(t, int(sz))] * int(cnt)
+        else:
+            out.append((t, int(body)))
+    # resolve the mixed type by message number (flushes take no number)
+    res, i = [], 0
+    for t, sz in out:
+        if t == 'f':
+            res.append((t, sz)); continue
+        res.append(('diwc'[i % 4] if t == 'm' else t, sz)); i += 1
+    return res
+
+
 def expand(msgs):
+    """the messages only"""
+    return [e for e in events(msgs) if e[0] != 'f']
+
+
+def expand_old(msgs):
     out = []
     if msgs in ('-', ''):
         return out
@@ -72,7 +104,9 @@ def compress(ml):
         j = i
         while j < len(ml) and ml[j] == ml[i]:
             j += 1
-        out.append('%s%d' % ml[i] + ('*%d' % (j - i) if j - i > 1 else ''))
+        out.append(('f' if ml[i][0] == 'f' else '%s%d' % ml[i]) + ('*%d' % (j - i) if j - i > 1 and ml[i][0] != 'f' else ''))
+        if ml[i][0] == 'f':
+            j = i + 1
         i = j
     return ','.join(out)
 
@@ -105,6 +139,8 @@ def fault_ids(sc):
         return ids
     for it in sc['msgs'].split(','):
         t, body = it[0], it[1:]
+        if t == 'f':
+            continue
         n = int(body.split('*')[1]) if '*' in body else 1
         if t == 'z':
             ids += list(range(i, i + n))
@@ -132,12 +168,12 @@ def forgive_faults(files, reference, zids):
 
 def nsinks(tree):
     t = MODEL_TREE.get(tree, tree)
-    return sum(1 for c in t if c in 'FRrDB')
+    return sum(1 for c in t if c in 'FRrDBqQ')
 
 
 def broken_sinks(tree):
     t = MODEL_TREE.get(tree, tree)
-    return [k for k, c in enumerate(c for c in t if c in 'FRrDB') if c == 'B']
+    return [k for k, c in enumerate(c for c in t if c in 'FRrDBqQ') if c == 'B']
 
 
 def read_sink(d, k, sc):
@@ -148,7 +184,7 @@ def read_sink(d, k, sc):
         m = re.match(r's\d+\.(\d{4}-\d{2}-\d{2})\.(\d+)\.log$', os.path.basename(p))
         if m:
             rot.append((m.group(1), int(m.group(2)), p))
-    paths = [p for _, _, p in sorted(rot)] + [os.path.join(d, 's%d.log' % k)]
+    paths = [p for _, _, p in sorted(rot) if not os.path.isdir(p)] + [os.path.join(d, 's%d.log' % k)]
     ids, defects = [], []
     for p in paths:
         try:
@@ -165,7 +201,7 @@ def read_sink(d, k, sc):
                 defects.append('foreign line %r' % ln[:60]); continue
             i = int(m.group(1))
             exp = text_of(i, sizes[i])
-            front = sc['tree'] in ('ONE', 'ONER')
+            front = sc['tree'].startswith('ONE')
             if (front and not ln.endswith(b' ' + exp)) or (not front and ln != exp):
                 defects.append('record %d corrupted (%d bytes, expected %d)' % (i, len(ln), len(exp)))
             ids.append(i)
@@ -226,6 +262,19 @@ def scenarios(chk):
         for fsz in (20000, 10):
             add(tree, 'fatal', 'main', [('m', 10)] * 3 + [('z', fsz)] + [('m', 10)] * 3, 13, 'device-fault')
     add('ONE', 'fatal', 'sec', [('i', 10)] * 2 + [('z', 30000)] + [('w', 10)] * 2, 13, 'device-fault')
+    # an explicit flush() at file position P, a size rotation, and the fatal record ending at position P of the new
+    # file (fixed-length records: 100 bytes, limit 1000): a flush that trusts a remembered position must not skip
+    for j in (1, 2, 3, 5):
+        out.append({'tree': 'oq', 'end': 'fatal', 'thread': 'main', 'msgs': 'm99*%d,f,m99*9' % j, 'fatalsize': 99, 'origin': 'flush-then-rotation'})
+    out.append({'tree': 'oFq', 'end': 'fatal', 'thread': 'sec', 'msgs': 'm99*2,f,m99*5,f,m99*14', 'fatalsize': 99, 'origin': 'flush-then-rotation'})
+    # the rename of a rotation fails (a directory occupies the name): nothing already logged may be lost
+    for tree, th in (('oQ', 'main'), ('ONEQ', 'main'), ('oQ(Q)F', 'sec')):
+        add(tree, 'fatal', th, [('m', 99)] * 30, 13, 'blocked-rename')
+    add('oQ', 'kill', 'main', [('m', 99)] * 25, 13, 'blocked-rename')
+    # a logger configured asynchronous that has become synchronous again (resetOwnThread(), event loop finished)
+    for tree in ('ONEA1', 'ONEA2'):
+        for ml in ([], [('m', 10)] * 3, [('m', 20480)] * 3):
+            add(tree, 'fatal', 'main', ml, 13, 'became-synchronous')
     # random trees and histories aimed at the case splits: buffer overflow (pre-flush), blocks above the
     # chunk size (bypass), exactly the chunk size, all message types, deeper nesting, several sinks
     def rtree(depth):
@@ -303,7 +352,7 @@ def run():
         res[i]['files_raw'] = res[i]['files']
         # the model now predicts the fate of a record written during a device fault (lost iff it bypasses the buffer);
         # the one-line front-end adds a time stamp of unknown length, so only there the record is still forgiven
-        if scs[i]['tree'] in ('ONE', 'ONER'):
+        if scs[i]['tree'].startswith('ONE'):
             res[i]['files'] = forgive_faults(res[i]['files'], exp_of.get(i), fault_ids(scs[i]))
     _, verdicts, _ = vlib.run_lines(model, ['%s | %s' % (model_line(scs[i]), res[i]['files']) for i in fat], ['oracle'])
     verdict = dict(zip(fat, verdicts))
@@ -322,7 +371,7 @@ def run():
     def run_canon(sc):
         r = run_impl(impl, sc)
         _, ex, _ = vlib.run_lines(model, [model_line(sc)], ['expected'])
-        if sc['tree'] in ('ONE', 'ONER'):
+        if sc['tree'].startswith('ONE'):
             r['files'] = forgive_faults(r['files'], ex[0] if ex else None, fault_ids(sc))
         return r, (ex[0] if ex else '?')
 
@@ -337,14 +386,14 @@ def run():
         # smallest failing scenario, then fewer/smaller preceding messages
         i = min(falsified, key=lambda j: (len(expand(scs[j]['msgs'])), len(scs[j]['tree'])))
         sc = dict(scs[i])
-        ml = vlib.shrink_list(expand(sc['msgs']), lambda cand: fails(dict(sc, msgs=compress(cand))), max_steps=40)
+        ml = vlib.shrink_list(events(sc['msgs']), lambda cand: fails(dict(sc, msgs=compress(cand))), max_steps=40)
         sc['msgs'] = compress(ml)
         if sc['thread'] != 'main' and fails(dict(sc, thread='main')):
             sc['thread'] = 'main'
         r, ex0 = run_canon(sc)
         ex = [ex0]
         _, mo, _ = vlib.run_lines(model, [model_line(sc)])
-        k = len(ml)
+        k = len([e for e in ml if e[0] != 'f'])
         death = {-6: 'SIGABRT', -11: 'SIGSEGV', -9: 'SIGKILL'}.get(r['rc'], 'exit status %r' % (r['rc'],))
         chk.fail('after qFatal the files of the file sinks lack records that reached them: tree %s (%s), preceding messages %s, fatal from the %s thread: '
                  'the process died by %s (abort after the fatal message = SIGABRT), files hold [%s], the property demands [%s] '
@@ -356,7 +405,7 @@ def run():
                   'tree_legend': 'F R r D file sinks, B file sink on /dev/full, g n e x l y filters (debug only, not fatal, even ids, odd ids, '
                                  '>= warning, category rule debug only), o formatter, N null handler entry, S handler sleeping 2 s on non-main '
                                  'threads, ( ) nested pipeline; message i has type diwc[i%4] for m; z = logged while the device rejects writes; '
-                                 'thread busy = last preceding message held inside the logger by a helper thread when main raises the fatal',
+                                 'f = explicit flush(); q/Q rotating sink with 1000-byte limit (Q: rename blocked); thread busy = last preceding message held inside the logger by a helper thread when main raises the fatal',
                   'died_by': death,
                   'byte_defects': r['defects'], 'model_with_translated_source_predicts': mo[0] if mo else None,
                   'exit_status': r['rc'], 'falsified_scenarios': len(falsified),
@@ -404,6 +453,9 @@ def run():
         'scenarios_with_filter': sum(1 for s in scs if set(MODEL_TREE.get(s['tree'], s['tree'])) & set('gnexly')),
         'scenarios_with_null_handler_entry': sum(1 for s in scs if 'N' in s['tree'] and s['tree'] not in MODEL_TREE),
         'scenarios_with_transient_device_fault': sum(1 for s in scs if fault_ids(s)),
+        'scenarios_with_explicit_flush': sum(1 for s in scs if any(e[0] == 'f' for e in events(s['msgs']))),
+        'scenarios_with_blocked_rotation_rename': sum(1 for s in scs if 'Q' in s['tree']),
+        'scenarios_logger_became_synchronous': sum(1 for s in scs if s['tree'] in ('ONEA1', 'ONEA2')),
         'scenarios_with_busy_logger': sum(1 for s in scs if s['thread'] == 'busy'),
         'fatal_scenarios_died_by_sigabrt': sum(1 for i in fat if res[i]['rc'] == -6),
         'scenarios_with_full_device_sink': sum(1 for s in scs if 'B' in MODEL_TREE.get(s['tree'], s['tree'])),
